@@ -783,6 +783,24 @@ bytes hash_string_synth(int alg, uint64_t len, uint32_t pat)
 {
   Hashmaster *h = hasher(alg);
   bytes out(hash_len(alg));
+  // materialising the message needs `len` bytes of real memory: skip (caller counts it) unless the machine
+  // clearly has them, so that the OOM killer can never turn this case into a fake crash
+  {
+    unsigned long long avail_kb = 0;
+    if (FILE *mi = fopen("/proc/meminfo", "r"))
+    {
+      char line[256];
+      while (fgets(line, sizeof line, mi))
+        if (sscanf(line, "MemAvailable: %llu kB", &avail_kb) == 1)
+          break;
+      fclose(mi);
+    }
+    if (avail_kb && avail_kb * 1024ull < 3ull * len + (2ull << 30))
+    {
+      delete h;
+      return bytes();
+    }
+  }
   u8_t *m = (u8_t *)malloc(len ? len : 1);
   if (!m)
   {
